@@ -72,8 +72,14 @@ def new_clause(chk, F, roles):
         st.root().locals['self'] = cc14_value(F, roles, CH, MSB, VAL)
         outs = I.run(fk2, [Rf(0, 'self', ())], [], st)
         want = T.mk_op('Add', MSB, C(32), None, cons)
-        ok = len(outs) == 1 and outs[0].kind == 'return' and H.scalar_of(outs[0].value) is not None and \
-            H.same(H.scalar_of(outs[0].value).term, want, outs[0].st.cons)
+        # (several paths are fine - a range test by `leading_zeros` splits the controller numbers - as long as each returns msb + 32
+        # and together they cover 0..31)
+        ok = bool(outs) and all(o.kind == 'return' and H.scalar_of(o.value) is not None and
+                                H.same(H.scalar_of(o.value).term, want, o.st.cons) for o in outs)
+        cover = VS.of([])
+        for o in outs:
+            cover = cover.join(vs_of(MSB, o.st.cons))
+        ok = ok and cover == VS(0, 31)
         chk.ob(key2, 'accessor', 'proved' if ok else 'refuted', subject=fn_subject(F, fk2), expected='msb + 32, no panic',
                found=['%s %r' % (o.kind, o.value) for o in outs])
     guarded(chk, key2, 'accessor', ev2)
